@@ -118,6 +118,11 @@ def run(tier, seed):
                 actions.append({"act": "cli", "req": rq, "omit_dense": j % 8 < 4})
             if j % 4 == (pi + 2) % 4:
                 actions.append({"act": "gen", "req": rq, "omit_dense": True})
+            # formats are a mapping: the order in which they are mentioned is not part of the request
+            if j % 4 == (pi + 1) % 4:
+                actions.append({"act": "gen", "req": rq, "reverse_formats": True})
+            if j % 8 == (pi + 3) % 8:
+                actions.append({"act": "cli", "req": rq, "omit_dense": False, "reverse_formats": True})
         jobs.append(({"proc": f"p{pi}", "actions": actions}, hs, f"text{pi}"))
     # --- cache scenarios (one process), incl. eviction
     cache_actions = []
